@@ -118,7 +118,7 @@ Viol(pst, pq, r) ==
       [] Prop = "C12" -> V_C12(pst, r) \cup (IF r.k = "store" /\ r.res # "ok" THEN V_QSame(pq, r) ELSE {})
       [] Prop = "C16" -> V_C16(pst, r) \cup (IF r.k \in {"reopen", "rebuild"} THEN V_QSame(pq, r) ELSE {})
       [] Prop = "C17" -> V_C17(pst, r) \cup V_Q17(r)
-      [] Prop = "C18" -> V_C18(pst, r)
+      [] Prop = "C18" -> V_C18(pst, r) \cup (IF r.k \in {"remove", "vanish"} THEN V_Q17(r) ELSE {})
       [] Prop = "C15" -> V_C15(pst, r)
       [] Prop = "FRAME" -> LET pre == Abs(pst)  post == Abs(r.st)  c == [k |-> r.k, a |-> r.a] IN
                                IF Frame(pre, c, r.res, post) THEN {} ELSE {"Frame"}
